@@ -20,7 +20,7 @@ type poolObj struct {
 	Src   string
 	Form  bool
 	// Make builds objects that have no source text (invalid UTF-8, NUL,
-	// 10 000-deep nesting, symbols of unknown packages); Src is then only
+	// 4 000-deep nesting, symbols of unknown packages); Src is then only
 	// the rendering used in messages.
 	Make func() slip.Object
 }
@@ -93,7 +93,7 @@ var pool = []poolObj{
 	{Name: "big40", Class: "big40", Src: big40}, // a count no allocation can satisfy but makeslice accepts
 	{Name: "bad-utf8", Class: "badstring", Src: `"\xff\xfeab\xc3"`, Make: func() slip.Object { return slip.String("\xff\xfeab\xc3") }},
 	{Name: "nul-str", Class: "nulstring", Src: `"a\x00b"`, Make: func() slip.Object { return slip.String("a\x00b") }},
-	{Name: "deep-list", Class: "deeplist", Src: "'((((...10000 deep...))))", Make: deepList},
+	{Name: "deep-list", Class: "deeplist", Src: "'((((...4000 deep...))))", Make: deepList},
 	{Name: "closed-channel", Class: "closedchannel", Src: "(let ((c (make-channel 2))) (channel-push c 1) (channel-close c) c)"},
 	{Name: "closed-out-stream", Class: "closedstream", Src: "(let ((s (make-string-output-stream))) (close s) s)"},
 	{Name: "unk-pkg-sym", Class: "pkgsymbol", Src: "'nosuchpkg:foo", Make: func() slip.Object { return slip.Symbol("nosuchpkg:foo") }},
@@ -108,7 +108,7 @@ var smallPool = []string{"nil", "zero", "neg1", "big62", "str", "sym", "keyword"
 // quickPool: the quick tier walks every pair of these for every function.
 var quickPool = []string{"nil", "zero", "three", "neg1", "big62", "big40", "bad-utf8", "deep-list", "double", "str", "sym", "keyword", "char", "list3", "list1", "dotted", "vector", "hash", "lambda", "in-stream"}
 
-const deepDepth = 10000
+const deepDepth = 4000
 
 // deepList nests a one-element list deepDepth times: ((((...(x)...)))).
 func deepList() slip.Object {
